@@ -195,33 +195,55 @@ def unjk(J):
     return out
 
 
-def class_defaults(sp_or_cls):
-    """(dialect name, QUOTE_CHAR, wrap default) of a query class, read off a fresh builder"""
-    b = _cls(sp_or_cls)._builder()
-    return (b.dialect.name if b.dialect is not None else None, b.QUOTE_CHAR, b.wrap_set_operation_queries)
+def class_conventions(clsname):
+    """the documented conventions of a query class, read off the class attributes of a fresh builder:
+    (items applied with setdefault, items forced)"""
+    b = _cls(clsname)._builder()
+    d = {"quote_char": b.QUOTE_CHAR, "secondary_quote_char": b.SECONDARY_QUOTE_CHAR,
+         "alias_quote_char": b.ALIAS_QUOTE_CHAR,
+         "query_alias_quote_char": b.ALIAS_QUOTE_CHAR if b.QUERY_ALIAS_QUOTE_CHAR is None else b.QUERY_ALIAS_QUOTE_CHAR,
+         "as_keyword": b.as_keyword, "dialect": b.dialect.name if b.dialect is not None else None}
+    forced = {"groupby_alias": False} if clsname in ("OracleQuery", "MSSQLQuery") else {}
+    return d, forced
+
+
+def page_style(clsname):
+    return {"OracleQuery": "POracle", "MSSQLQuery": "PMssql"}.get(clsname, "PStd")
 
 
 def eff_kwargs(Kcall, base_sp):
-    """what the documentation of _SetOperation.get_sql promises: explicit kwargs win, dialect and quote_char
-    default to the base query's"""
-    dialect, quote, _ = class_defaults(base_sp["cls"])
+    """what _SetOperation.get_sql documents: anything set by the caller is kept, every other convention is the
+    base query's"""
+    d, forced = class_conventions(base_sp["cls"])
     K = dict(Kcall)
-    if "dialect" not in K:
-        K["dialect"] = dialect
-    if "quote_char" not in K:
-        K["quote_char"] = quote
+    for k, v in d.items():
+        K.setdefault(k, v)
+    K.update(forced)
     return K
 
 
 def own_kwargs(Kcall, sp):
-    """the decoy: the operand's own class defaults instead of the base's"""
+    """the decoy: the operand's own class conventions instead of the base's"""
     if not is_builder_spec(sp):
         return None
-    dialect, quote, _ = class_defaults(spec_cls(sp))
-    K = dict(Kcall)
-    K["dialect"] = dialect
-    K["quote_char"] = quote
-    return K
+    return eff_kwargs(Kcall, {"cls": spec_cls(sp)})
+
+
+def impl_conventions(ob):
+    """(setdefault items, forced items, pagination style) as the implementation object applies them"""
+    d = {}
+    ob._set_kwargs_defaults(d)
+    sentinel = object()
+    d2 = {k: sentinel for k in d}
+    ob._set_kwargs_defaults(d2)
+    forced = {k: v for k, v in d2.items() if v is not sentinel}
+    defaults = {k: v for k, v in d.items() if k not in forced}
+    p = ob.QUERY_CLS._builder()
+    p._limit, p._offset = 3, None
+    t = p._apply_pagination("")
+    style = {" LIMIT 3": "PStd", " FETCH NEXT 3 ROWS ONLY": "POracle",
+             " OFFSET 0 ROWS FETCH NEXT 3 ROWS ONLY": "PMssql"}.get(t, "?" + t)
+    return jk(defaults), jk(forced), style
 
 
 def order_field(fs, base_obj, base_sp):
@@ -377,14 +399,15 @@ def run_impl(case):
     for sp, ob in zip(specs, objs):
         if isinstance(ob, QueryBuilder):
             sel = [getattr(s, "alias", None) for s in ob._selects]
-            d = {"sel": sel, "builder": True, "wrap": bool(ob.wrap_set_operation_queries),
-                 "dialect": ob.dialect.name if ob.dialect is not None else None, "quote": ob.QUOTE_CHAR}
+            dd, ff, st = impl_conventions(ob)
+            d = {"sel": sel, "builder": True, "chain": False, "wrap": bool(ob.wrap_set_operation_queries),
+                 "defaults": dd, "forced": ff, "page": st}
         elif isinstance(ob, _SetOperation):
             sel = [getattr(s, "alias", None) for s in ob.base_query._selects]
-            d = {"sel": sel, "builder": isinstance(getattr(type(ob), "_selects", None), property),
-                 "wrap": False, "dialect": None, "quote": None}
+            d = {"sel": sel, "builder": isinstance(getattr(type(ob), "_selects", None), property), "chain": True,
+                 "wrap": False, "defaults": {}, "forced": {}, "page": "PStd"}
         else:
-            d = {"sel": [], "builder": False, "wrap": False, "dialect": None, "quote": None}
+            d = {"sel": [], "builder": False, "chain": False, "wrap": False, "defaults": {}, "forced": {}, "page": "PStd"}
         d["texts"] = [[_safe(lambda: ob.get_sql(subquery=False, **unjk(K))), _safe(lambda: ob.get_sql(subquery=True, **unjk(K)))]
                       for K in Ks]
         ops.append(d)
@@ -405,20 +428,24 @@ def run_impl(case):
 # ================================================================================================
 # model side
 # ================================================================================================
-def OOS(present, v):
-    return "None" if not present else "(Some %s)" % OS(v)
+def kval(v):
+    if v is None:
+        return "VNone"
+    if isinstance(v, bool):
+        return "(VBool %s)" % B(v)
+    if isinstance(v, str):
+        return "(VStr %s)" % S(v)
+    raise ValueError("kwargs value %r" % (v,))
 
 
 def kw_coq(K):
-    other = ";".join("%s=%r" % (k, K[k]) for k in sorted(K) if k not in ("dialect", "quote_char"))
-    return "(mk_kw %s %s %s %s %s)" % (OOS("dialect" in K, K.get("dialect")), OOS("quote_char" in K, K.get("quote_char")),
-                                        OS(K.get("alias_quote_char")), B(bool(K.get("as_keyword", False))), S(other))
+    return L(["(%s, %s)" % (S(k), kval(K[k])) for k in sorted(K)])
 
 
 def op_coq(d, Ks):
     tbl = L(["(%s, %s, %s)" % (kw_coq(K), S(t[0]), S(t[1])) for K, t in zip(Ks, d["texts"])])
-    return "(mk_op %s %s %s %s %s %s)" % (L([OS(a) for a in d["sel"]]), B(d["builder"]), B(d["wrap"]),
-                                          OS(d["dialect"]), OS(d["quote"]), tbl)
+    return "(mk_op %s %s %s %s %s %s %s %s)" % (L([OS(a) for a in d["sel"]]), B(d["builder"]), B(d["chain"]), B(d["wrap"]),
+                                                kw_coq(d["defaults"]), kw_coq(d["forced"]), d["page"], tbl)
 
 
 def to_coq(case, outcome):
@@ -505,10 +532,12 @@ def _viol(op, kind, what, msg):
 def _expected_wrap(base_sp):
     if base_sp.get("wrap") is not None:
         return bool(base_sp["wrap"])
-    return base_sp["cls"] != "ClickHouseQuery"      # the one dialect documented not to wrap
+    return base_sp["cls"] not in ("ClickHouseQuery", "SQLLiteQuery")      # the dialects documented not to wrap
 
 
+# limit/offset in the base dialect's syntax: LIMIT n OFFSET m, or (Oracle, MSSQL) OFFSET m ROWS FETCH NEXT n ROWS ONLY
 _TAIL = re.compile(r"^(?:ORDER BY (?P<ob>.*?))?\s*(?:LIMIT (?P<l>-?\d+))?\s*(?:OFFSET (?P<o>-?\d+))?$", re.S)
+_TAIL_FETCH = re.compile(r"^(?:ORDER BY (?P<ob>.*?))?\s*(?:OFFSET (?P<o>-?\d+) ROWS)?\s*(?:FETCH NEXT (?P<l>-?\d+) ROWS ONLY)?$", re.S)
 
 
 def _check_tail(case, rest):
@@ -522,7 +551,8 @@ def _check_tail(case, rest):
             lim = st[1]
         elif st[0] == "offset":
             off = st[1]
-    m = _TAIL.match(rest.strip())
+    fetch = page_style(case["base"].get("cls", "")) != "PStd"
+    m = (_TAIL_FETCH if fetch else _TAIL).match(rest.strip())
     if not m:
         return "trailing-clauses-malformed", "trailing text %r is not ORDER BY/LIMIT/OFFSET in that order" % rest
     ob, l_, o_ = m.group("ob"), m.group("l"), m.group("o")
@@ -560,8 +590,16 @@ def _check_chain_text(case, text, Kcall):
     out = []
     n = len(specs)
     owns = [build_operand(sp).get_sql(**unjk(K)) for sp in specs]
-    # an operand that is itself a chain and is NOT wrapped brings its own depth-0 keywords: they belong to it
-    inner = [0 if wrap else len(split_depth0(o)[1]) for o in owns]
+
+    def expected(i):
+        if wrap:
+            return "(" + owns[i] + ")"
+        if i > 0 and specs[i]["k"] == "chain":      # grouping kept as a derived table where operands stay bare
+            return "SELECT * FROM (" + owns[i] + ")"
+        return owns[i]
+    exps = [expected(i) for i in range(n)]
+    # depth-0 keywords inside an expected operand text belong to that operand (none, unless something is off)
+    inner = [len(split_depth0(e)[1]) for e in exps]
     _, kws_all, spans = split_depth0(text)
     if len(kws_all) != n - 1 + sum(inner):
         return [_viol("any", spec_kind(specs[0]), "operand-count",
@@ -583,7 +621,7 @@ def _check_chain_text(case, text, Kcall):
                              "call #%d %s rendered as %s, documented %s: %r" % (i + 1, m, kw, METHS[m][1], text)))
     for i, sp in enumerate(specs):
         own = owns[i]
-        exp = "(" + own + ")" if wrap else own
+        exp = exps[i]
         seg = segs[i].strip()
         m = "base" if i == 0 else meths[i - 1]
         if i == n - 1:
@@ -598,7 +636,7 @@ def _check_chain_text(case, text, Kcall):
                 if i == n - 1:
                     return out
                 continue
-            others = ["(" + o2 + ")" if wrap else o2 for o2 in owns]
+            others = exps
             bare = own if wrap else "(" + own + ")"
             if (seg == bare) or (i == n - 1 and seg.startswith(bare)):
                 what = "wrapping"
@@ -648,7 +686,8 @@ def _check_sqlite(case, outcome):
         if nested_bare:
             return [_viol("any", "_SetOperation-operand-without-wrapping", "grouping-lost-on-sqlite",
                           "SQLite rejects %r: %s" % (outcome["text"], got))]
-        if wrapped and 'near "(": syntax error' in got and base["cls"] == "SQLLiteQuery" and base.get("wrap") is None:
+        if 'near "(": syntax error' in got and base["cls"] == "SQLLiteQuery" and base.get("wrap") is None \
+                and outcome["text"].startswith("("):
             return [_viol("any", "SQLLiteQuery-default-wrapping", "sqlite-rejects-parenthesised-operands",
                           "SQLite rejects %r: %s" % (outcome["text"], got))]
         return [_viol("any", base["cls"], "sqlite-error", "SQLite rejects %r: %s" % (outcome["text"], got))]
@@ -832,7 +871,8 @@ def gen_operand(rng, base_cls, arity, sqlite_safe=False, special=None):
     if sqlite_safe:
         if special == "chain":      # all flags off, so that SQLite accepts the text at all
             a, b = gen_q(rng, "SQLLiteQuery", arity, True), gen_q(rng, "SQLLiteQuery", arity, True)
-            a["wrap"] = False
+            if rng.random() < 0.5:
+                a["wrap"] = False
             return {"k": "chain", "base": a, "m": rng.choice(["union", "union_all", "intersect", "except_of"]), "o": b}
         return gen_q(rng, rng.choice(["SQLLiteQuery", "SQLLiteQuery", "Query"]), arity, True)
     cls = base_cls if rng.random() < 0.8 else rng.choice(CLASSES)
@@ -870,7 +910,7 @@ def gen_case(rng, maxlen, sqlite_stream=False):
     special = [None] * n        # per case (not per operand), so that long chains stay mostly well-formed
     r = rng.random()
     if sqlite_stream:
-        if r < 0.10 and base.get("wrap") is False:
+        if r < 0.15:
             special[rng.randrange(n)] = "chain"
     elif r < 0.12:
         special[rng.choice([0, n // 2, n - 1])] = "chain"
@@ -976,7 +1016,7 @@ def histogram(cases):
             if st[0] != "op":
                 inc("step=" + st[0] + ("=0" if st[0] in ("limit", "offset") and st[1] == 0 else ""))
         if c.get("sqlite") is not None:
-            inc("sqlite-stream" + ("(default wrapping)" if c["base"].get("wrap") is None else "(wrap=False)"))
+            inc("sqlite-stream" + ("(class default)" if c["base"].get("wrap") is None else "(wrap=False)"))
         if not bad and all(sp["k"] == "q" and not sp.get("hint") for sp in specs):
             inc("inside-the-proved-fragment")
     return h
